@@ -6,7 +6,7 @@ PLAN = {
         "type:ode": 0.15, "type:dae": 0.05, "type:nla": 0.04, "type:algebraic": 0.1,
         "variant-type:underconstrained": 0.1, "variant-type:overconstrained": 0.02, "variant-type:unsuitably_constrained": 0.01, "variant-type:invalid": 0.08,
         "multi-component": 0.4, "nla-with-guesses": 0.05, "nla-single-unknown": 0.02, "reads-nla-unknown": 0.03, "initial-value-on-another-instance": 0.05,
-        "class-with-differently-named-instances": 0.2, "primary-variable-changed": 0.1,
+        "class-with-differently-named-instances": 0.2, "primary-variable-changed": 0.03,
         "transform:permute-components": 0.2, "transform:permute-variables": 0.2, "transform:permute-equations": 0.2, "transform:reverse-connections": 0.2, "transform:swap-sides": 0.2,
         "transform:rename-components": 0.2, "transform:rename-units": 0.2, "transform:rename-variables/2": 0.05, "transform:rename-variables/3": 0.05,
     },
